@@ -339,6 +339,7 @@ func c11Custom(ctx *Ctx) *Extra {
 		log   []sym.Access
 		posOf func(sym.Access) string
 		which int
+		names map[*sym.Value]string
 	}
 	var mu sync.Mutex
 	var logs []logged
@@ -354,13 +355,20 @@ func c11Custom(ctx *Ctx) *Extra {
 					w = int(iv)
 				}
 			}
+			want := map[*sym.Value]bool{}
+			for _, a := range l {
+				if a.Loc != nil {
+					want[a.Loc] = true
+				}
+			}
+			names := e.GlobalNames(want)
 			mu.Lock()
 			logs = append(logs, logged{lbl, l, func(a sym.Access) string {
 				if a.Instr == nil {
 					return a.Sync
 				}
 				return e.PosOf(a.Instr)
-			}, w})
+			}, w, names})
 			mu.Unlock()
 		}
 		return ctx.Prog.Explore(h)
@@ -437,14 +445,234 @@ func c11Custom(ctx *Ctx) *Extra {
 			}
 		}
 	}
+	// ---- cross-function scenarios: the first calls of two different entry points race ----
+	// Each log was taken from the pristine process state on its own path, so cell addresses
+	// differ between them: locations are matched by the stable names of the package-level
+	// state they belong to. Reads of a location the other thread writes are constrained to
+	// come before those writes (that is the value the logged control flow observed).
+	var lazy []logged
+	for _, lg := range logs {
+		if strings.Contains(lg.label, "Lazy") && lg.which >= 0 && lg.which < len(names) {
+			lazy = append(lazy, lg)
+		}
+	}
+	crossPairs, crossHeld := 0, 0
+	for i := 0; i < len(lazy); i++ {
+		for j := 0; j < len(lazy); j++ {
+			if i == j {
+				continue
+			}
+			sc := crossScenario(lazy[i].log, lazy[i].names, names[lazy[i].which], lazy[j].log, lazy[j].names, names[lazy[j].which])
+			if sc == nil {
+				continue // no conflicting accesses to common package-level state at all
+			}
+			crossPairs++
+			rr := sc.solve(func(a sym.Access) string {
+				if a.Seg == "B" {
+					return lazy[j].posOf(a)
+				}
+				return lazy[i].posOf(a)
+			})
+			ex.Obligations++
+			ex.Queries++
+			ex.SolverTime += time.Duration(rr.queryS * float64(time.Second))
+			switch rr.result {
+			case "unsat":
+				ex.Discharged++
+				crossHeld++
+			case "sat":
+				label := names[lazy[i].which] + " || " + names[lazy[j].which]
+				rf := &ReplayFile{Property: "C11", Harness: "displayp3.VerifHarness_C11_NativeRacePair", Pkg: "displayp3", Func: "VerifHarness_C11_NativeRacePair", Kind: "race", Label: "data race between the first calls of " + label, Detail: rr.pair, Expect: "fail",
+					Inputs: []ReplayInput{{Name: "choice_1", Tag: "choice", Bits: fmt.Sprintf("%d", lazy[i].which)}, {Name: "choice_2", Tag: "choice", Bits: fmt.Sprintf("%d", lazy[j].which)}}}
+				f := writeReplay(rf)
+				res, err := NativeReplay(ctx.Prog, "displayp3", []string{f}, true)
+				if err == nil && res[f] != nil && (len(res[f].Failures) > 0 || res[f].Panic != "") {
+					ex.Failures = append(ex.Failures, fmt.Sprintf("data race between the first calls of %s|%s|replay=%s", label, rr.pair, f))
+				} else {
+					ex.Inconclusive = append(ex.Inconclusive, fmt.Sprintf("race model for %s did not reproduce under the race detector (%s)", label, rr.pair))
+				}
+			default:
+				ex.Inconclusive = append(ex.Inconclusive, "undecided scenario "+sc.name)
+			}
+		}
+	}
+	ex.Samples = append(ex.Samples, map[string]interface{}{"scenario": "cross-function first calls (ordered pairs of the entry points that touch common package-level state with at least one write)", "pairs_with_conflicting_accesses": crossPairs, "no_race": crossHeld})
 	ex.Assumptions = append(ex.Assumptions,
 		"happens-before = program order + go-statement edges + WaitGroup Done->Wait + sync.Once contract (completion of f is synchronized before the return of every Do); the Go scheduler and the implementation of sync are not modelled",
-		"control flow of a concurrent caller is one of the variants observed by the executor (first call, first call with the Once body removed, later call), each constrained to the runner's writes it observed",
+		"control flow of a concurrent caller is one of the variants observed by the executor (first call, first call with the Once body removed, later call), each constrained to the runner's writes it observed; cross-function scenarios pair the first calls of two different entry points and match package-level state by name (heap state not reachable from a package-level variable is call-private)",
 		"a data race is a pair of conflicting plain accesses to the same cell from different goroutines unordered by happens-before in a feasible sequentially consistent execution")
 	data, _ := json.Marshal(ex.Samples)
 	_ = data
 	_ = os.Stdout
 	return ex
+}
+
+// crossScenario: thread A = first call of f (runner), thread B = first call of g, both
+// from the pristine state. If both ran the body of the same sync.Once, B is the caller
+// that finds the Once taken: its body events are removed and A's completion is
+// synchronized before B's return from Do. Returns nil when the two calls have no
+// conflicting accesses to commonly named state.
+func crossScenario(la []sym.Access, na map[*sym.Value]string, fa string, lb []sym.Access, nb map[*sym.Value]string, fb string) *hbScenario {
+	canon := map[string]*sym.Value{}
+	cell := func(name string) *sym.Value {
+		if c, ok := canon[name]; ok {
+			return c
+		}
+		c := new(sym.Value)
+		canon[name] = c
+		return c
+	}
+	pick := func(l []sym.Access, n map[*sym.Value]string, seg string) []sym.Access {
+		var out []sym.Access
+		for _, a := range l {
+			if a.Seg != "first" || a.Loc == nil {
+				continue
+			}
+			nm, ok := n[a.Loc]
+			if !ok {
+				continue // call-private or heap state not reachable from a package-level variable
+			}
+			a.Loc = cell(nm)
+			a.Seg = seg
+			out = append(out, a)
+		}
+		return out
+	}
+	A, B := pick(la, na, "A"), pick(lb, nb, "B")
+	// common Once run by both?
+	ranA := map[*sym.Value]bool{}
+	for _, a := range A {
+		if a.Sync == "once.run" {
+			ranA[a.Loc] = true
+		}
+	}
+	var common *sym.Value
+	for _, b := range B {
+		if b.Sync == "once.run" && ranA[b.Loc] {
+			common = b.Loc
+			break
+		}
+	}
+	enterB, exitB := -1, -1
+	if common != nil {
+		var nb2 []sym.Access
+		in := false
+		for _, b := range B {
+			if b.Loc == common && b.Sync == "once.run" {
+				in = true
+				continue
+			}
+			if b.Loc == common && b.Sync == "once.done" {
+				in = false
+				continue
+			}
+			if !in {
+				nb2 = append(nb2, b)
+			}
+		}
+		B = nb2
+	}
+	// keep plain accesses to locations both threads touch, and all sync events
+	inA, inB := map[*sym.Value]bool{}, map[*sym.Value]bool{}
+	for _, a := range A {
+		if isPlain(a) {
+			inA[a.Loc] = true
+		}
+	}
+	for _, b := range B {
+		if isPlain(b) {
+			inB[b.Loc] = true
+		}
+	}
+	filter := func(l []sym.Access) []sym.Access {
+		var out []sym.Access
+		for _, a := range l {
+			if !isPlain(a) || (inA[a.Loc] && inB[a.Loc]) {
+				out = append(out, a)
+			}
+		}
+		return out
+	}
+	A, B = filter(A), filter(B)
+	conflict := false
+	wA, wB := map[*sym.Value]bool{}, map[*sym.Value]bool{}
+	for _, a := range A {
+		if isPlain(a) && a.Write {
+			wA[a.Loc] = true
+		}
+	}
+	for _, b := range B {
+		if isPlain(b) && b.Write {
+			wB[b.Loc] = true
+		}
+	}
+	for _, a := range A {
+		if isPlain(a) && (a.Write || wB[a.Loc]) && inB[a.Loc] {
+			conflict = true
+		}
+	}
+	if !conflict {
+		return nil
+	}
+	s := &hbScenario{name: fmt.Sprintf("first call of %s || first call of %s", fa, fb)}
+	mk := func(name string, accs []sym.Access) hbThread {
+		th := hbThread{name: name}
+		for _, a := range accs {
+			th.events = append(th.events, hbEvent{acc: a})
+		}
+		return th
+	}
+	ta := s.add(mk("first caller of "+fa, A))
+	tb := s.add(mk("first caller of "+fb, B))
+	doneA := -1
+	for i, e := range s.threads[ta].events {
+		if common != nil && e.acc.Loc == common && e.acc.Sync == "once.done" {
+			doneA = i
+		}
+	}
+	for i, e := range s.threads[tb].events {
+		if common != nil && e.acc.Loc == common && e.acc.Sync == "once.enter" && enterB < 0 {
+			enterB = i
+		}
+		if common != nil && e.acc.Loc == common && e.acc.Sync == "once.exit" && exitB < 0 {
+			exitB = i // the first return from the shared Do; later events follow in program order
+		}
+	}
+	if doneA >= 0 && exitB >= 0 {
+		s.edges = append(s.edges, [2][2]int{{ta, doneA}, {tb, exitB}})
+	}
+	firstLast := func(t int, loc *sym.Value) (int, int) {
+		f, l := -1, -1
+		for i, e := range s.threads[t].events {
+			if isPlain(e.acc) && e.acc.Write && e.acc.Loc == loc {
+				if f < 0 {
+					f = i
+				}
+				l = i
+			}
+		}
+		return f, l
+	}
+	guard := func(t, o int) {
+		for i, e := range s.threads[t].events {
+			if !isPlain(e.acc) || e.acc.Write {
+				continue
+			}
+			f, l := firstLast(o, e.acc.Loc)
+			if f < 0 {
+				continue
+			}
+			if t == tb && exitB >= 0 && i > exitB {
+				// after returning from the shared Do, B sees what A's body wrote
+				s.tsLess = append(s.tsLess, [2][2]int{{o, l}, {t, i}})
+			} else {
+				s.tsLess = append(s.tsLess, [2][2]int{{t, i}, {o, f}})
+			}
+		}
+	}
+	guard(ta, tb)
+	guard(tb, ta)
+	return s
 }
 
 func init() {
